@@ -177,3 +177,70 @@ def _match_val(actual, expected) -> bool:
     if isinstance(expected, dict) and "contains" in expected:
         return isinstance(actual, str) and expected["contains"] in actual
     return actual == expected
+
+
+class MiniReport:
+    """stand-in for Report inside worker processes: same calls, results shipped back and folded by fold_mini()"""
+
+    def __init__(self, pid: str, known: List[dict]):
+        self.pid = pid
+        self._known = known
+        self.items: List[dict] = []
+        self.queries = {"sat": 0, "unsat": 0, "unknown": 0}
+        self.solver_s = 0.0
+        self.inconclusive: List[str] = []
+        self.harness_errors: List[str] = []
+        self.functions: List[dict] = []
+        self.samples: List[Any] = []
+        self.extra: Dict[str, Any] = {}
+
+    def encoded(self, *objs):
+        for o in objs:
+            self.functions.append(src_sha(o) if not isinstance(o, str) else file_sha(o))
+
+    def q(self, result: str, dt: float = 0.0):
+        self.queries[result if result in self.queries else "unknown"] += 1
+        self.solver_s += dt
+
+    def sample(self, s, cap=12):
+        if len(self.samples) < cap:
+            self.samples.append(s)
+
+    def note_inconclusive(self, what: str):
+        self.inconclusive.append(what)
+
+    def harness_error(self, what: str):
+        self.harness_errors.append(what)
+
+    def match_known(self, sig: dict):
+        for e in self._known:
+            if e.get("status") != "open":
+                continue
+            m = e.get("match", {})
+            if m and all(_match_val(sig.get(k), v) for k, v in m.items()):
+                return e
+        return None
+
+    def violation(self, sig: dict, replay: dict, what: str) -> bool:
+        self.items.append({"sig": sig, "replay": replay, "what": what})
+        return self.match_known(sig) is not None
+
+    def dump(self) -> dict:
+        return {k: getattr(self, k) for k in ("items", "queries", "solver_s", "inconclusive", "harness_errors", "functions", "samples", "extra")}
+
+
+def fold_mini(rep: "Report", d: dict):
+    for k in ("sat", "unsat", "unknown"):
+        rep.queries[k] += d["queries"][k]
+    rep.solver_s += d["solver_s"]
+    for x in d["inconclusive"]:
+        rep.note_inconclusive(x)
+    for x in d["harness_errors"]:
+        rep.harness_error(x)
+    for f in d["functions"]:
+        if f not in rep.functions:
+            rep.functions.append(f)
+    for s in d["samples"]:
+        rep.sample(s)
+    for it in d["items"]:
+        rep.violation(it["sig"], it["replay"], it["what"])
